@@ -48,7 +48,8 @@ RULE = ("case = one static configuration x (fault route, fault position k in 0..
         "ones (so 'last finite' differs from 'initial'); the faults are also combined with a validation module "
         "(scripted, recording the parameters it is called with; real ValidationLoss with a still-decreasing loss; "
         "periods 1..3, k on and off the schedule; no stop request before the fault): Holds.C19 is then evaluated too "
-        "(invocations with the post-update -- NaN -- parameters, criterion history, best parameters)")
+        "(invocations with the post-update -- NaN -- parameters, criterion history, best parameters)"
+        " Plus: faults injected into runs of real losses whose data generator refines itself inside the loop (RAR); Holds.C18 is evaluated in Lean against the fault-free run of the same program supplied as the reference trace (op c18ref).")
 ASSUMPTIONS = [
     "IEEE NaN propagation through the polynomial loss, its AD and the optax update (validated by every run)",
     "the marked point is recognised by exact equality of grid points (dyadic grids)",
